@@ -75,10 +75,19 @@ namespace nmtools::index
             // not valid
         }
         else {
+            // a run-time negative axis counts from the last axis (as in numpy)
+            auto m_axis = [&](){
+                if constexpr (meta::is_constant_index_v<axis_t>) {
+                    return axis;
+                } else {
+                    auto a = static_cast<nm_index_t>(axis);
+                    return static_cast<nm_size_t>((a < 0) ? (a + static_cast<nm_index_t>(ad)) : a);
+                }
+            }();
             // TODO: do not use tuple_at
-            auto aa = tuple_at(ashape,axis);
-            auto ba = tuple_at(bshape,axis);
-            auto ia = tuple_at(indices,axis);
+            auto aa = tuple_at(ashape,m_axis);
+            auto ba = tuple_at(bshape,m_axis);
+            auto ia = tuple_at(indices,m_axis);
             // todo error handling for other axis
             if (ia<aa) {
                 aflag = true;
@@ -93,7 +102,7 @@ namespace nmtools::index
                 // select ashape, must apply offset from ashape
                 for (size_t i=0; i<bd; i++) {
                     // TODO: do not use tuple_at
-                    if (static_cast<idx_t>(i)==static_cast<idx_t>(axis))
+                    if (static_cast<idx_t>(i)==static_cast<idx_t>(m_axis))
                         at(b_indices,i) = tuple_at(indices,i) - aa;
                     else at(b_indices,i) = tuple_at(indices,i);
                 }
@@ -192,10 +201,19 @@ namespace nmtools::index
             }
             else if (ad==bd) {
                 using idx_t = meta::promote_index_t<size_t,axis_t>;
+                // a run-time negative axis counts from the last axis (as in numpy)
+                auto m_axis = [&](){
+                    if constexpr (meta::is_constant_index_v<axis_t>) {
+                        return axis;
+                    } else {
+                        auto a = static_cast<nm_index_t>(axis);
+                        return static_cast<nm_size_t>((a < 0) ? (a + static_cast<nm_index_t>(ad)) : a);
+                    }
+                }();
                 auto shape_concatenate_impl = [&](auto i){
                     auto ai = at(ashape,i);
                     auto bi = at(bshape,i);
-                    if (static_cast<idx_t>(i)==static_cast<idx_t>(axis)) {
+                    if (static_cast<idx_t>(i)==static_cast<idx_t>(m_axis)) {
                         at(ret,i) = ai + bi;
                     }
                     // TODO: consider to provide platform dependent index_t
